@@ -78,7 +78,7 @@ def gen_zero_threshold(tier):
 
 def s_exp3():
     return st.fixed_dictionaries({"kind": st.just("exp3"), "w": rotvec_exp(), "v": st.one_of(gens.trans(3, -6, 6), gens.trans(3, -6, 6), st.just([0.0, 0.0, 0.0]), tiny_vec()),
-                                  "wzero": st.sampled_from([False, False, False, True]),
+                                  "wzero": st.sampled_from([False, False, False, True]), "batch": st.sampled_from([0, 0, 0, 2, 3, 5, 6, 7]),
                                   "se": st.booleans(), "matrix": st.booleans(), "theta_form": st.booleans(),
                                   "norm6": st.sampled_from([False, False, False, False, True])})
 
@@ -231,6 +231,19 @@ def _exp3(case):
         ok, X = c.lib("SE3.Exp", L.SE3.Exp, arg.copy())
         if ok and c.true("SE3.Exp/type", type(X) is L.SE3 and len(X) == 1, "SE3.Exp gave %s len %s" % (type(X).__name__, len(X))):
             c.eq("SE3.Exp/value", X.A, want, TOL, sc)
+        # a batch of twists (list / tuple / array of rows) gives one exponential per twist, whatever the batch size - in
+        # particular as many twists as a twist has components
+        nb = case.get("batch", 0)
+        if nb:
+            rows = [vec * (1.0 - 0.07 * i) for i in range(nb)]
+            for frm, barg in (("list", [r.copy() for r in rows]), ("tuple", tuple(r.copy() for r in rows)), ("array", np.array(rows))):
+                okb, XB = c.lib("SE3.Exp[batch]", L.SE3.Exp, barg)
+                if okb and c.true("SE3.Exp[batch]/len", type(XB) is L.SE3 and len(XB) == nb, "SE3.Exp of %d twists (%s) gave %s of %s" % (
+                        nb, frm, type(XB).__name__, len(XB) if hasattr(XB, "__len__") else "?"), batch=nb, form=frm):
+                    for i in (0, nb - 1):
+                        oks, Xs = c.lib("SE3.Exp[batch]/single", L.SE3.Exp, rows[i].copy())
+                        if oks:
+                            c.eq("SE3.Exp[batch]/element", XB.data[i], Xs.A, 1e-12, sc, batch=nb)
         ok, tw = c.lib("Twist3", L.Twist3, arg.copy())
         if ok:
             c.eq("Twist3/S", tw.S, vec, 1e-12, max(1.0, float(np.max(np.abs(vec)))))
